@@ -59,6 +59,7 @@ struct ProblemOptions
     double table_scale{1.0};  //!< seed-dependent scaling of all cross sections
     double dedx{2.0};  //!< MeV/cm in the dense material
     size_type max_streams{1};
+    bool msc{false};  //!< Urban multiple scattering for e-/e+ with a synthetic transport cross section
     double field_tesla{0};  //!< uniform magnetic field along (1,1,1)/sqrt(3) * value; 0 = linear propagation
     Script* script{nullptr};  //!< scripted physics instead of the EM processes
     double electron_mass{0.5109989461};
@@ -278,19 +279,44 @@ inline void build_problem(Problem& p, ProblemOptions const& o)
     ti.max_events = o.max_events;
     ti.track_order = o.track_order;
     p.init = std::make_shared<TrackInitParams>(ti);
+    std::shared_ptr<UrbanMscParams const> msc;
+    if (o.msc && !o.script)
+    {
+        // synthetic scaled transport cross section xs*E^2 [MeV^2/cm], log grid shared by e-/e+ and materials
+        std::vector<ImportMscModel> mm;
+        auto eg = loggrid(1e-4, 1e8, 85);
+        for (auto pdgn : {pdg::electron(), pdg::positron()})
+        {
+            ImportMscModel m;
+            m.particle_pdg = pdgn.get();
+            m.model_class = ImportModelClass::urban_msc;
+            m.xs_table.table_type = ImportTableType::lambda;
+            m.xs_table.x_units = ImportUnits::mev;
+            m.xs_table.y_units = ImportUnits::mev_2_per_cm;
+            for (double sc : {1.0, 1e-7})
+            {
+                std::vector<double> y(eg.size());
+                for (size_t i = 0; i < eg.size(); ++i)
+                    y[i] = 0.3 * sc * o.table_scale * (1 + 0.1 * std::log10(eg[i] / 1e-4));
+                m.xs_table.physics_vectors.push_back(logvec(eg, y));
+            }
+            mm.push_back(m);
+        }
+        msc = std::make_shared<UrbanMscParams>(*p.particles, *p.mats, mm);
+    }
     if (o.field_tesla != 0)
     {
         UniformFieldParams fp;
         double const b = o.field_tesla * units::tesla / std::sqrt(3.0);
         fp.field = {b, b, b};
         auto along = AlongStepUniformMscAction::from_params(
-            p.action_reg->next_id(), *p.mats, *p.particles, fp, nullptr, o.fluct);
+            p.action_reg->next_id(), *p.mats, *p.particles, fp, msc, o.fluct);
         p.action_reg->insert(along);
     }
     else
     {
         auto along = AlongStepGeneralLinearAction::from_params(
-            p.action_reg->next_id(), *p.mats, *p.particles, nullptr, o.fluct);
+            p.action_reg->next_id(), *p.mats, *p.particles, msc, o.fluct);
         p.action_reg->insert(along);
     }
     p.inp.geometry = p.geo;
